@@ -1,5 +1,6 @@
 #!/bin/sh
 # tools/seedregress.sh [pattern] : re-run the quick check of every stored seed's property against the seed (scratch copies under $TMPDIR, removed);
+# (a seed whose meta.json has check_with is run against that property's check: its change breaks the clause another listed property owns)
 # prints one line per seed; every line must say rc=1 (seeds made for a tree before a later fix rewrote the same lines, and the one
 # seed that a fix neutralised, are listed as n/a with the reason from their meta.json).
 for d in /verif/seeded/${1:-*}; do
@@ -7,7 +8,7 @@ for d in /verif/seeded/${1:-*}; do
   na=$(python3 -c "
 import json;m=json.load(open('$d/meta.json'))
 print(m.get('applies_to') or ('not a valid seed on the current tree' if m.get('valid_seed') is False else ''))")
-  id=$(python3 -c "import json;print(json.load(open('$d/meta.json'))['property'])")
+  id=$(python3 -c "import json;m=json.load(open('$d/meta.json'));print(m.get('check_with') or m['property'])")
   if [ -n "$na" ]; then echo "$n $id n/a ($na)"; continue; fi
   out=$(/verif/tools/mut.sh $d/patch.diff $id 2>&1); rc=$?
   echo "$n $id rc=$rc $(echo "$out" | grep -a -m1 'bucket=' | cut -c1-120)"
